@@ -27,6 +27,8 @@ RULE = ('Hypothesis generates data lines (n in 0..12, flags over {0,1,2,3,4,9}, 
         'that are valid both as flags and as numbers. A case is non-trivial when n>=1 (so that flags and '
         '(flux, error) pairs exist and mis-assignment is observable); distinct = distinct canonical JSON.')
 RULE += (' ' + 'Round trip entry: element types of the flux and error sequences vary independently (Python / numpy floats, integers, float32), containers list / tuple / array, coordinates up to +-20000.')
+RULE += (' ' + "Entry 'chars': lines whose tokens are built from arbitrary characters (digits, signs, exponents, separators, letters, non-ASCII digits), classified by the reference as must-parse / must-reject / either.")
+RULE += (' ' + 'The sources parsed within one case stay alive and are examined again after the later lines were read.')
 ASSUMPTIONS = [
     'numeric tokens are plain decimal / exponent literals; nothing is claimed about exotic literals numpy may accept',
     'a token in a flag position that is not an integer literal but is numerically an allowed flag (e.g. 1.000e+00) '
@@ -315,6 +317,7 @@ def run_parse(case, ctx):
         labels.add('bad_flag_planted')
     base = [case['name'], case['x'], case['y']] + flags + list(case['values'])
     pool = base + list(case['extras'])
+    alive = []   # the sources read so far stay around, as the lines of a catalogue read into a list do
     for c in range(0, 3 * n + 7):
         tokens = pool[:c]
         line = build_line(case, tokens)
@@ -346,9 +349,18 @@ def run_parse(case, ctx):
                 what, s.name, None if s.valid is None else list(s.valid),
                 None if s.flux is None else list(s.flux)), 'parse:malformed_accepted')
         compare_parsed(s, expect[1], what)
+        alive.append((s, expect[1], what))
         labels.add('parsed_n=%d' % min(len(expect[1]['valid']), 3) if len(expect[1]['valid']) < 3 else 'parsed_n>=3')
         if c != 3 * (n + 1):
             labels.add('parsed_other_layout')
+    if alive:
+        # one more line of another width, then every source read before still says what its own line said
+        other = Source.from_ascii('later_line 10.5 -3.25 1 3 0 2.5 0.25 7.0 0.9 -999. -999.')
+        compare_parsed(other, {'name': 'later_line', 'x': 10.5, 'y': -3.25, 'valid': [1, 3, 0], 'flux': [2.5, 7.0, -999.],
+                               'error': [0.25, 0.9, -999.]}, 'a well-formed 12-column line read after the others')
+        for s, ref, what in alive:
+            compare_parsed(s, ref, what + ', examined again after %d later line(s) had been read' % len(alive))
+        labels.add('sources_alive_side_by_side>=%d' % min(len(alive) + 1, 3))
     return labels, n >= 1
 
 
